@@ -301,7 +301,7 @@ pub enum Ev {
     HPoll { inv: usize, n: usize, v: u64, step: u64 },
     HFinish { inv: usize, v: u64, step: u64 },
     HDrop { inv: usize, finished: bool, v: u64, r: Instant, step: u64 },
-    Idle { v: u64, step: u64, reported: Option<usize>, lens: Option<(usize, usize)>, writable: bool, inbox: usize },
+    Idle { v: u64, step: u64, reported: Option<usize>, lens: Option<(usize, usize)>, writable: bool, inbox: usize, unflushed: usize },
     End { v: u64, step: u64 },
     StreamErr { variant: String, step: u64 },
     EofSeen { step: u64 },
@@ -734,15 +734,15 @@ async fn run_inner(cfg: &Cfg, out: &mut Outcome) {
                 Some(s) => (s.reported(), s.lens()),
                 None => (None, None),
             };
-            let (writable, inbox) = {
+            let (writable, inbox, unflushed) = {
                 let s = st.borrow();
-                (s.writable_now(), s.inbox.len())
+                (s.writable_now(), s.inbox.len(), s.unflushed())
             };
             let v = vms();
             let mut s = sh.borrow_mut();
             let dup = matches!(s.ev.last(), Some(Ev::Idle { v: lv, reported: lr, lens: ll, writable: lw, inbox: li, .. }) if *lv == v && *lr == reported && *ll == lens && *lw == writable && *li == inbox);
             if !dup && srv_alive {
-                s.ev.push(Ev::Idle { v, step, reported, lens, writable, inbox });
+                s.ev.push(Ev::Idle { v, step, reported, lens, writable, inbox, unflushed });
             }
         }
         // ---- choose
@@ -1711,7 +1711,16 @@ fn oracles(
                     out.nontrivial("C10");
                 }
             }
-            Ev::Idle { v, reported, lens, writable, inbox, step } => {
+            Ev::Idle { v, reported, lens, writable, inbox, step, unflushed } => {
+                // C10: once the inbound side has ended and nothing is left to wait for - every yielded
+                // request answered (and its response written), cancelled or abandoned; nothing unread,
+                // nothing unflushed, sink writable - the stream must not sit idle: it ends
+                if eof_seen_at.is_some() && *inbox == 0 && *writable && *unflushed == 0 && pending_read.is_none() && cfg.fault.is_none() {
+                    let open = yielded.iter().filter(|q| !ended_set.contains(q) && !appdropped.contains(q)).count();
+                    if open == 0 && !yielded.is_empty() {
+                        out.viols.push(Viol::new("C10", "server-idle-after-drain", format!("idle at step {step} ({v}ms): the inbound side has ended and all {} yielded requests are answered, cancelled or abandoned, nothing is unread or unflushed and the sink is writable, yet the request stream has not ended and is not runnable", yielded.len())));
+                    }
+                }
                 let possible_now = yielded.iter().filter(|q| !ended_set.contains(q)).count();
                 let at_limit = match (limit, reported) {
                     (Some(l), Some(r)) => *r >= l,
